@@ -210,7 +210,10 @@ class C13(Prop):
                  'DK.BridgeSets.BaseDevice_map', 'DK.BridgeSets.BaseDevice_map_tree']      # T1s: set-level glue (vk/translate_sets.py, DK/Lemmas/BridgeSets/*.lean)
   bridge = bridge_sets
   theorems = {'DK.Props.C13': ['DK.C13.' + t for t in THEOREMS],
-              'DK.Props.C13find': ['DK.C13.' + t for t in FIND_THEOREMS]}
+              'DK.Props.C13find': ['DK.C13.' + t for t in FIND_THEOREMS],
+              # map() is total, ordered, reads row k only; re-rooting a subtree only prepends the path
+              'DK.Props.C13b': ['DK.C13.' + t for t in ('mapRows_length', 'mapRows_labels', 'mapRows_row', 'mapRows_total', 'mapRows_ext',
+                                                       'labels_prefix', 'labelsL_prefix', 'labels_node')]}
   rule = ('random rooted ordered trees (depth <= 3 quick / 4 thorough, fan-out <= 3, nested sets, MFDeviceSet / TwoRatioMFDeviceSet adaptors with 1..3 '
           'conduits, SubBalancedDeviceSet nodes), horizon 1..6 (..10); once per run a chain of 7-8 nested sets, a set of 16-20 leaves sharing a suffix and a user-defined iterable composite; '
           'mixed-case ids and siblings differing only in case; leaf ids with the regex-special characters Device accepts (+ ( ) [ ]); sibling pairs '
